@@ -162,7 +162,7 @@ func run(t interface{ Fatalf(string, ...any) }, c *Case) {
 // ---------------------------------------------------------------- generators
 
 var fields = []string{"a", "b", "c", "col_1", "X9", "zZ_", "count", "a0"}
-var values = []string{"", "x", "1", "a b", "é", "日本", "\xff", "a\"b", "\"", "\"\"", "\n", "a\nb", "$1", ";", "(", ")", "&|^", "=", ",", "\x00", "\t", "💩", "''", "\\"}
+var values = []string{"\ufffd", "M\ufffdnchen", "x\xc0\xa2y", "\xc0\xa0", "\xc1\x81", "a  b", "a\tb", "", "x", "1", "a b", "é", "日本", "\xff", "a\"b", "\"", "\"\"", "\n", "a\nb", "$1", ";", "(", ")", "&|^", "=", ",", "\x00", "\t", "💩", "''", "\\"}
 var placeholders = []string{"1", "2", "3", "10", "007", "2147483647", "0001"}
 
 func quote(v string) string { return `"` + strings.ReplaceAll(v, `"`, `""`) + `"` }
@@ -320,7 +320,7 @@ func drawMutated(t *rapid.T) *Case {
 	return &Case{Input: join(t, mutate(t, toks)), Source: "mutated"}
 }
 
-var alphabet = []string{"a", "b", "=", "\"", "\"x\"", "$", "1", "0", "&", "|", "^", "(", ")", ";", ",", " ", "\n", "_", "é", "\xff", "9"}
+var alphabet = []string{"\xc0\xa2", "\xc0\xa0", "\xc0\xa8", "\xc0\xa9", "\xc0\xa6", "\xc0\xac", "\xc1\x81", "\xc0\xbd", "\ufffd", "a", "b", "=", "\"", "\"x\"", "$", "1", "0", "&", "|", "^", "(", ")", ";", ",", " ", "\n", "_", "é", "\xff", "9"}
 
 func drawBytes(t *rapid.T) *Case {
 	if rapid.Bool().Draw(t, "alpha") {
@@ -439,6 +439,14 @@ func extra(t *testing.T, scale int) {
 	for _, s := range synlex {
 		for i := 0; i < 300*scale; i++ {
 			run(t, &Case{Input: s, Source: "syntax-then-lexical-error"})
+		}
+	}
+	// a syntax error directly followed by a token that takes long to scan
+	// (the lexer is still inside it when the parser has already given up)
+	big := strings.Repeat("v", 256<<10)
+	for _, s := range []string{`a a "` + big + `"`, `a = = ` + big, `a = "1" ) "` + big + `"`, `& "` + big, `a = "1" "` + big + `" junk`} {
+		for i := 0; i < 12*scale; i++ {
+			run(t, &Case{Input: s, Source: "syntax-error-then-huge-token"})
 		}
 	}
 	concurrent(t, 4*scale)
